@@ -82,4 +82,12 @@ PROPS = {
         "rule": "cases: 54 single-construct recipes (6 constructs x depths 1,2,40,78,79,80,81,300,5000), ~250 pair recipes (multiplicative inline x dotted, additive pairs at depths 2..300), random compositions of up to 4 constructs; each recipe runs in 2 build profiles x ~16 stages. distinct = recipe string; all non-trivial",
         "assumptions": COMMON + ["inputs are kept below 64 KiB"],
     },
+    "C14": {
+        "claimed": True,
+        "technique": "reference-model monitor: every span reported by ImDocument and delivered through serde (Spanned values and keys) is compared with the token spans of the independent reference lexer; containment, re-parse and into_mut monitors",
+        "level_text": "for every valid workload text each Key/Value/Table/ArrayOfTables span of the ImDocument must be in bounds, on character boundaries and equal to the span R's lexer assigns (scalar/array/inline table: the token; table: header start to the section's last value; array of tables: first to last element); children lie in their parents; the spanned slice re-parses to the same key/value; a Spanned-wrapping recursive target decoded through toml::from_str must deliver exactly the item spans for values and keys and the same value as without Spanned; after into_mut no span survives",
+        "level_note": "trusted: R's token spans; table-name keys are accepted at any of their occurrences (one Key per table, see D12)",
+        "rule": "cases: corpus, rendered documents with multi-byte characters, BOM, CRLF, comments/whitespace around every token, nested containers, dotted keys, headers and arrays of tables; mutation survivors. distinct = text hash; non-trivial = documents on which at least 3 spans were compared",
+        "assumptions": COMMON,
+    },
 }
